@@ -37,13 +37,14 @@ impl ColorOptimizer {
             for y in 0..layer.get_height() {
                 for x in 0..layer.get_width() {
                     let attr_ch = layer.get_char((x, y));
-                    let map = self.shape_map.get(&attr_ch.get_font_page()).unwrap();
+                    let map = self.shape_map.get(&attr_ch.get_font_page());
                     let mut ch = attr_ch.ch;
                     let mut attribute = attr_ch.attribute;
-                    match *map.get(&attr_ch.ch).unwrap() {
+                    // a cell without a font or without a glyph is not drawn by the renderer: leave it as it is
+                    match *map.and_then(|m| m.get(&attr_ch.ch)).unwrap_or(&GlyphShape::Mixed) {
                         GlyphShape::Whitespace => {
                             attribute.set_foreground(cur_attr.get_foreground());
-                            if self.normalize_whitespace && map.contains_key(&' ') {
+                            if self.normalize_whitespace && map.is_some_and(|m| m.contains_key(&' ')) {
                                 ch = ' ';
                             }
                         }
